@@ -70,7 +70,8 @@ def judge_reduce(m, rng_text, envs, ienvs):
             if x != y: return f"reduce by {rng_text} = {r}: {y} instead of {x} on python {e['python_full_version']}"
     return None
 
-PYRANGES = [">=3.6", ">=3.7,<4.0", "^3.8", "~3.9", ">=2.7,<3.0 || >=3.6", "<3.10", ">=3.6.1", "~=3.8", ">3.6", "<=3.9", "3.8.*", "!=3.7.*", ">=3.10", "^3.6 || ^2.7", ">=3.6,<3.8"]
+# ranges whose bounds lie strictly inside an X.Y series are there on purpose (python_version clauses speak about whole series: C17-1)
+PYRANGES = [">=3.8.1", ">3.8", ">=3.8.5,<3.9", ">=3.8.1,<4.0", ">3.9,<3.11", ">=3.9.1,<3.10", "<=3.8.3", "<3.10.2", ">=3.6", ">=3.7,<4.0", "^3.8", "~3.9", ">=2.7,<3.0 || >=3.6", "<3.10", ">=3.6.1", "~=3.8", ">3.6", "<=3.9", "3.8.*", "!=3.7.*", ">=3.10", "^3.6 || ^2.7", ">=3.6,<3.8"]
 
 def run(tier):
     R = common.Run("C17", tier)
@@ -95,12 +96,34 @@ def run(tier):
         d, text = judge_exclude(rng, ienv)
         if text: R.count("exclude_cases")
         if d: R.fail(dict(marker=text, kind="exclude"), d, MI.d35_matcher)
+    # reduction on markers about the interpreter, judged on every interpreter around the bounds the range and the marker mention
+    from props import C11
+    for _ in range(300 if tier == "quick" else 6000):
+        s, k, feats = MI.gen_marker(rng, depth=2, leaves=rng.randint(1, 3), focus=rng.choice([["pv"], ["pv", "pfv"], ["pv", "pfv", "str"]]))
+        m = K.parse(s)
+        if m is None or isinstance(m, Exception): continue
+        for pr in rng.sample(PYRANGES, 2):
+            pys = C11.interpreters(pr + " " + s)
+            es = []
+            for py in pys:
+                e = dict(rng.choice(MI.PLATFORMS)); e.update(python_full_version=py, python_version=".".join(py.split(".")[:2]), implementation_version=py, extra=[])
+                es.append(e)
+            R.case(dict(marker=s, range=pr), nontrivial=True); R.count("reduce_python_cases")
+            d = judge_reduce(m, pr, es, [MI.impl_env(e) for e in es])
+            if d: R.fail(dict(marker=s, kind="reduce", range=pr, python_grid=True), d, MI.d35_matcher)
     return R.finish(K.TRUSTED, ASSUME, RULE, "make -C coq Properties/C17.vo && coqc Properties/C17.v (Print Assumptions)")
 
 def replay(rep):
     import random
     c = rep["case"]; envs = MI.env_grid("thorough"); ienv = [MI.impl_env(e) for e in envs]
     m = K.parse(c["marker"])
+    if c.get("python_grid"):
+        from props import C11
+        envs = []
+        for py in C11.interpreters(c["range"] + " " + c["marker"]):
+            for pl in MI.PLATFORMS:
+                e = dict(pl); e.update(python_full_version=py, python_version=".".join(py.split(".")[:2]), implementation_version=py, extra=[]); envs.append(e)
+        ienv = [MI.impl_env(e) for e in envs]
     d = judge_reduce(m, c["range"], envs, ienv) if c.get("kind") == "reduce" else judge_only(m, ienv, random.Random(1))
     print("FAILS: " + d if d else "holds")
     return 1 if d else 0
